@@ -30,6 +30,8 @@ pub struct MiriOutcome {
    pub ok_runs: u64,
    pub class: Option<String>,
    pub detail: String,
+   /// innermost backtrace frame that lies in /repo: "<function> at /repo/<file>"
+   pub repo_frame: String,
    pub wall_s: f64,
 }
 
@@ -56,6 +58,7 @@ fn parse(log: &Path, wall_s: f64) -> MiriOutcome {
    let ok_runs = text.lines().filter(|l| l.starts_with("OK ")).count() as u64;
    let mut class = None;
    let mut detail = String::new();
+   let mut repo_frame = String::new();
    let lines: Vec<&str> = text.lines().collect();
    for (i, l) in lines.iter().enumerate() {
       if let Some(rest) = l.strip_prefix("ORACLE-VIOLATION ") {
@@ -70,6 +73,18 @@ fn parse(log: &Path, wall_s: f64) -> MiriOutcome {
          let kind = if l.contains("Data race") { "data-race" } else if l.contains("deadlock") { "deadlock" } else if l.contains("Undefined Behavior") { "undefined-behavior" } else { "miri-error" };
          class = Some(format!("{}:{}", kind, file_line));
          detail = format!("{} at {}", l.trim_start_matches("error: "), loc);
+         // innermost /repo frame of the backtrace: "N: <function>" followed by "at /repo/...:line:col"
+         for j in i..lines.len().saturating_sub(1) {
+            if lines[j + 1].trim_start().starts_with("at /repo/") {
+               let func = lines[j].trim().splitn(2, ": ").nth(1).unwrap_or(lines[j].trim());
+               let file = lines[j + 1].trim().trim_start_matches("at ").split(':').next().unwrap_or("");
+               repo_frame = format!("{} at {}", func, file);
+               break;
+            }
+         }
+         if !repo_frame.is_empty() {
+            detail = format!("{} (innermost /repo frame: {})", detail, repo_frame);
+         }
          break;
       }
       if l.contains("panicked at") {
@@ -78,7 +93,7 @@ fn parse(log: &Path, wall_s: f64) -> MiriOutcome {
          break;
       }
    }
-   MiriOutcome { ok_runs, class, detail, wall_s }
+   MiriOutcome { ok_runs, class, detail, repo_frame, wall_s }
 }
 
 pub fn run_job(job: &MiriJob, log: &Path) -> Result<MiriOutcome, String> {
@@ -128,13 +143,14 @@ pub fn jobs(check: &str, thorough: bool, seed: u64) -> Vec<MiriJob> {
 
 pub struct EngineBReport {
    pub evidence: serde_json::Value,
-   pub violation: Option<(MiriJob, MiriOutcome)>,
+   /// every job that ended with a report (UB, data race, panic, oracle violation)
+   pub reports: Vec<(MiriJob, MiriOutcome)>,
 }
 
 pub fn run_all(check: &str, thorough: bool, seed: u64, dir: &Path, max_parallel: usize) -> Result<EngineBReport, String> {
    let jobs = jobs(check, thorough, seed);
    if jobs.is_empty() {
-      return Ok(EngineBReport { evidence: json!({"run": false, "why": "no Engine B scenario for this property"}), violation: None });
+      return Ok(EngineBReport { evidence: json!({"run": false, "why": "no Engine B scenario for this property"}), reports: vec![] });
    }
    let t0 = Instant::now();
    // one job first (it builds), the rest in parallel
@@ -172,7 +188,7 @@ pub fn run_all(check: &str, thorough: bool, seed: u64, dir: &Path, max_parallel:
       }
    }
    let runs: u64 = outcomes.iter().map(|(_, o)| o.ok_runs).sum();
-   let violation = outcomes.iter().find(|(_, o)| o.class.is_some()).cloned();
+   let reports: Vec<(MiriJob, MiriOutcome)> = outcomes.iter().filter(|(_, o)| o.class.is_some()).cloned().collect();
    let evidence = json!({
       "run": true,
       "what": "cargo +nightly miri run on /verif/miri (unhooked /repo crates, real rayon-core/crossbeam/dashmap/boxcar), Tree Borrows, data-race detector, weak-memory emulation, preemption rate 0.05",
@@ -180,5 +196,5 @@ pub fn run_all(check: &str, thorough: bool, seed: u64, dir: &Path, max_parallel:
       "executions_without_report": runs,
       "wall_s": t0.elapsed().as_secs_f64(),
    });
-   Ok(EngineBReport { evidence, violation })
+   Ok(EngineBReport { evidence, reports })
 }
